@@ -48,15 +48,30 @@ func lstatPrefix(base string, names []string) int {
 	return len(names)
 }
 
+// qid paths seen in the current run, per file (inode) and back
+var c16QidOf, c16InoOf map[uint64]uint64
+
 func c16CheckStat(x *Ctx, st *Stat, q *Qid, path string, dotu bool, what string) {
 	fi, err := os.Lstat(path)
 	if err != nil {
 		return
 	}
 	sys := fi.Sys().(*syscall.Stat_t)
+	// the statement asks for a qid path that is equal for the same file and different for different coexisting
+	// files, not for a particular value: the first path seen for a file is remembered, and vice versa
+	qidOK := func(path uint64) bool {
+		if p, ok := c16QidOf[sys.Ino]; ok && p != path {
+			return false
+		}
+		if ino, ok := c16InoOf[path]; ok && ino != sys.Ino {
+			return false
+		}
+		c16QidOf[sys.Ino], c16InoOf[path] = path, sys.Ino
+		return true
+	}
 	if q != nil {
-		if q.Path != sys.Ino {
-			x.Violate("w5-qid-path", "%s: qid path %d, the file's inode is %d", what, q.Path, sys.Ino)
+		if !qidOK(q.Path) {
+			x.Violate("w5-qid-path", "%s: qid path %d for the file with inode %d; earlier replies gave that file the path %d, and the path %d to the file with inode %d", what, q.Path, sys.Ino, c16QidOf[sys.Ino], q.Path, c16InoOf[q.Path])
 		}
 		if (q.Type&0x80 != 0) != fi.IsDir() || (q.Type&0x02 != 0) != (fi.Mode()&os.ModeSymlink != 0) {
 			x.Violate("w5-qid-type", "%s: qid type %#x for an object with mode %v", what, q.Type, fi.Mode())
@@ -84,8 +99,8 @@ func c16CheckStat(x *Ctx, st *Stat, q *Qid, path string, dotu bool, what string)
 	if st.Mtime != uint32(fi.ModTime().Unix()) {
 		x.Violate("w6-stat-mtime", "%s: stat mtime %d, the file's is %d", what, st.Mtime, fi.ModTime().Unix())
 	}
-	if st.Qid.Path != sys.Ino || (st.Qid.Type&0x80 != 0) != fi.IsDir() {
-		x.Violate("w5-qid-path", "%s: qid inside the stat is %x/%d, the file has inode %d dir=%v", what, st.Qid.Type, st.Qid.Path, sys.Ino, fi.IsDir())
+	if !qidOK(st.Qid.Path) || (st.Qid.Type&0x80 != 0) != fi.IsDir() {
+		x.Violate("w5-qid-path", "%s: qid inside the stat is %x/%d for the file with inode %d (dir=%v); earlier replies gave that file the path %d, and this path to the file with inode %d", what, st.Qid.Type, st.Qid.Path, sys.Ino, fi.IsDir(), c16QidOf[sys.Ino], c16InoOf[st.Qid.Path])
 	}
 	if dotu && fi.Mode()&os.ModeSymlink != 0 {
 		if t, _ := os.Readlink(path); st.Ext != t {
@@ -96,6 +111,7 @@ func c16CheckStat(x *Ctx, st *Stat, q *Qid, path string, dotu bool, what string)
 
 func c16Exec(x *Ctx) {
 	c := x.C
+	c16QidOf, c16InoOf = map[uint64]uint64{}, map[uint64]uint64{}
 	ms := uint32(c.cfg("msize"))
 	dotu := c.cfg("dotu") != 0
 	u := NewUfsSys(x, ms, true, 2, 0)
